@@ -67,7 +67,7 @@ Qed.
 Lemma compile_expr_ok : forall e L ce t pool, Inv L ce -> ty_expr F G L e = Some t ->
   compile_expr Gc ce e pool <> None.
 Proof.
-  induction e as [z|b0|s0|x|o a IHa|o a b IHa IHb|f args IHargs|c a b IHc IHa IHb|es IHes|a i IHa IHi|a IHa] using MutateProofs.expr_ind2;
+  induction e as [z|b0|s0|x|o a IHa|o a b IHa IHb|f args IHargs|c a b IHc IHa IHb|es IHes|a i IHa IHi|a IHa|so a IHa|so a b IHa IHb|a b c0 IHa IHb IHc] using MutateProofs.expr_ind2;
     intros L ce t pool HI Ht; simpl.
   - discriminate.
   - discriminate.
@@ -120,6 +120,21 @@ Proof.
   - (* array_length *)
     simpl in Ht. destruct (ty_expr F G L a) as [ta|] eqn:Ea; [|discriminate].
     pose proof (IHa L ce ta pool HI Ea). destruct (compile_expr Gc ce a pool) as [[ca p1]|]; [discriminate|contradiction].
+  - (* unary string builtin *)
+    simpl in Ht. destruct (ty_expr F G L a) as [ta|] eqn:Ea; [|discriminate].
+    pose proof (IHa L ce ta pool HI Ea). destruct (compile_expr Gc ce a pool) as [[ca p1]|]; [discriminate|contradiction].
+  - (* binary string builtin *)
+    simpl in Ht. destruct (ty_expr F G L a) as [ta|] eqn:Ea; [|discriminate].
+    destruct (ty_expr F G L b) as [tb|] eqn:Eb; [|discriminate].
+    pose proof (IHa L ce ta pool HI Ea). destruct (compile_expr Gc ce a pool) as [[ca p1]|]; [|contradiction].
+    pose proof (IHb L ce tb p1 HI Eb). destruct (compile_expr Gc ce b p1) as [[cb p2]|]; [discriminate|contradiction].
+  - (* str_substring *)
+    simpl in Ht. destruct (ty_expr F G L a) as [ta|] eqn:Ea; [|discriminate].
+    destruct (ty_expr F G L b) as [tb|] eqn:Eb; [|destruct ta; discriminate].
+    destruct (ty_expr F G L c0) as [tc|] eqn:Ec; [|destruct ta, tb; discriminate].
+    pose proof (IHa L ce ta pool HI Ea). destruct (compile_expr Gc ce a pool) as [[ca p1]|]; [|contradiction].
+    pose proof (IHb L ce tb p1 HI Eb). destruct (compile_expr Gc ce b p1) as [[cb p2]|]; [|contradiction].
+    pose proof (IHc L ce tc p2 HI Ec). destruct (compile_expr Gc ce c0 p2) as [[cc p3]|]; [discriminate|contradiction].
 Qed.
 
 Lemma expr_has_ok L ce e t pool : Inv L ce -> expr_has F G L e t = true -> exists c p1, compile_expr Gc ce e pool = Some (c, p1).
